@@ -72,6 +72,8 @@ def match_finding(f, v):
     """does known finding f (status open) accept violation record v?  Matching is by symptom class and
     structural trigger (feature flags / site), never by seed, hash or random value."""
     m = f.get('match', {})
+    if 'any_of' in m:
+        return any(match_finding({'match': alt}, v) for alt in m['any_of'])
     if v.get('symptom') not in _aslist(m.get('symptom')):
         return False
     flags = set(v.get('flags', []))
